@@ -37,6 +37,53 @@ theorem mergeOne_dir (inc : Include) (itv : Vars) (t : Task) :
     (mergeOne inc itv t).dir = if inc.advanced then smartJoin inc.dir t.dir else t.dir := by
   simp only [mergeOne]; split <;> split <;> rfl
 
+theorem addAliases_hit (n : Name) (extra : List Name) (tb : Table) (h : n ∈ tb.names) :
+    ∃ t' ∈ addAliases n extra tb, t'.name = n ∧ ∀ a ∈ extra, a ∈ t'.aliases := by
+  induction tb with
+  | nil => simp [Table.names] at h
+  | cons t r ih =>
+    simp only [addAliases]
+    split
+    · rename_i hn
+      exact ⟨_, List.mem_cons_self, hn, fun a ha => by simp [ha]⟩
+    · rename_i hn
+      simp only [Table.names, List.map_cons, List.mem_cons] at h
+      rcases h with h | h
+      · exact absurd h.symm hn
+      · obtain ⟨t', h1, h2, h3⟩ := ih h
+        exact ⟨t', List.mem_cons_of_mem _ h1, h2, h3⟩
+
+theorem withNs_default (ns : Name) : withNs defaultName ns = nsDefault ns := by
+  simp [withNs, defaultName, nsDefault, colon]
+
+theorem has_append_left (n : Name) (a b : Table) (h : a.has n = true) : (a ++ b).has n = true := by
+  rw [Table.has_iff] at *
+  simp only [Table.names, List.map_append, List.mem_append]
+  exact Or.inl h
+
+theorem mergeLoop_conflict (inc : Include) (itv : Vars) (t2 acc : Table)
+    (h : ∃ t ∈ t2, t.name ∉ inc.excludes ∧ acc.has (renName inc t.name) = true) :
+    mergeLoop inc itv t2 acc = .error .conflict := by
+  induction t2 generalizing acc with
+  | nil => obtain ⟨t, ht, _⟩ := h; cases ht
+  | cons t0 rest ih =>
+    obtain ⟨t, ht, hx, hh⟩ := h
+    simp only [mergeLoop]
+    by_cases hx0 : t0.name ∈ inc.excludes
+    · simp only [hx0, if_true]
+      simp only [List.mem_cons] at ht
+      rcases ht with rfl | ht
+      · exact absurd hx0 hx
+      · exact ih acc ⟨t, ht, hx, hh⟩
+    · simp only [hx0, if_false]
+      split
+      · rfl
+      · rename_i hno
+        simp only [List.mem_cons] at ht
+        rcases ht with rfl | ht
+        · rw [mergeOne_name] at hno; exact absurd hh hno
+        · exact ih _ ⟨t, ht, hx, has_append_left _ _ _ hh⟩
+
 /-- the table of `tf` has a task `n` with commands `c` and dependencies `d` -/
 def HasDef (tf : Taskfile) (n : Name) (c : List Cmd) (d : List Name) : Prop :=
   ∃ t ∈ tf.tasks, t.name = n ∧ t.cmds = c ∧ t.deps = d
